@@ -136,7 +136,10 @@ def run(ck: Check):
         # always: the same bytes split differently over the two streams / same streams, different exit status
         for a_, b_ in (((0, b"a\n", b""), (0, b"", b"a\n")), ((0, b"a\nb\n", b""), (0, b"a\n", b"b\n")),
                        ((1, b"", b"a\nb\n"), (1, b"a\n", b"b\n")), ((0, b"a\n", b"b\n"), (0, b"a\n", b"b\n")),
-                       ((0, b"a\n", b"b\n"), (3, b"a\n", b"b\n")), ((0, b"ab", b""), (0, b"a", b"b"))):
+                       ((0, b"a\n", b"b\n"), (3, b"a\n", b"b\n")), ((0, b"ab", b""), (0, b"a", b"b")),
+                       # equal length, equal CRC-32 and Adler-32, different bytes (and with a common prefix / suffix)
+                       ((0, b"plumless", b""), (0, b"buckeroo", b"")), ((0, b"", b"plumless\n"), (0, b"", b"buckeroo\n")),
+                       ((1, b"x plumless y\n", b"e"), (1, b"x buckeroo y\n", b"e")), ((0, b"plumless", b"buckeroo"), (0, b"buckeroo", b"plumless"))):
             for mode in (False, True):
                 djobs.append(a_ + b_ + (mode,))
         dchild = ("import sys,os\n"
